@@ -50,6 +50,9 @@ class C03(RecorderProp):
                     s = 'o0'
                 sp = sites[s]
                 st = {'op': 'call', 's': s, 'x': 'x%d' % j, 'args': [const(rand_value(rng, 1)) for _ in range(sp['nargs'])]}
+                if st['args'] and rng.random() < 0.12:
+                    # a class object sent as data (an event type): in first position of a static output it looks like a cls
+                    st['args'][rng.choice([0, 0, len(st['args']) - 1])] = const({'cls': rng.choice(['ValueError', 'KeyError', 'dict', 'Obj'])})
                 kw = [[k, const(rand_value(rng, 1))] for k in sp['kwnames'] if rng.random() < 0.7]
                 if kw:
                     st['kw'] = kw
